@@ -34,7 +34,15 @@ func (r *Request) ToModel() map[string]any {
 						custom = true
 					}
 				}
-				enums = append(enums, map[string]any{"full": pfx + e.Name, "custom": custom})
+				var vals []any
+				for _, v := range e.Values {
+					vj := map[string]any{"number": v.Number, "name": v.Name}
+					if v.Custom != nil {
+						vj["custom"] = *v.Custom
+					}
+					vals = append(vals, vj)
+				}
+				enums = append(enums, map[string]any{"full": pfx + e.Name, "custom": custom, "values": vals})
 			}
 		}
 		var walk func(pfx string, ms []*Message, top bool)
